@@ -23,6 +23,7 @@ import PyTealV.Cmd.C05
 import PyTealV.Cmd.C07
 import PyTealV.Cmd.C06
 import PyTealV.Cmd.C03Opt
+import PyTealV.Cmd.C02Gen
 namespace PyTealV.Cmd
 
 def extraCommands : List (String × (List String → String)) := [
@@ -71,7 +72,8 @@ def extraCommands : List (String × (List String → String)) := [
   ("c07-descr", C07.descr), ("c07-plan", C07.planCmd), ("c07-path", C07.pathCmd),
   ("c06-descr", C06.descrCmd), ("c06-set", C06.setCmd), ("c06-tuple", C06.tupleCmd), ("c06-uint", C06.uintCmd),
   ("c03-opt", C03Opt.opt), ("c03-iterate", C03Opt.iter), ("c03-run", C03Opt.run),
-  ("c03-pairs", C03Opt.pairs), ("c03-unopt", C03Opt.unopt)
+  ("c03-pairs", C03Opt.pairs), ("c03-unopt", C03Opt.unopt),
+  ("fragmentr-sexp", C02Gen.fragmentrSexp)
 ]
 
 def dispatch (cmd : String) (args : List String) : Option String :=
